@@ -118,7 +118,7 @@ def main():
         issue(np_, 0, reactor.stop)
         sup_issued.set()
         # if the reactor never reacts to stop (it was not woken), report what was observed
-        if not main_done.wait(lat_unit + 1.0):
+        if not main_done.wait(grace):
             write_result(True)
             os._exit(0)
 
